@@ -282,7 +282,7 @@ def run_case(case: dict, ops: list, drain=None, preload: bool = False, built: di
         b = s.b
         return {"facts": b["facts"], "layout": b["layout3"], "cutat": b["cutat"], "events": s.events,
                 "conn": {"second": conn["second"], "firstopen": bool(conn["firstopen"])}, "final": True,
-                "detail": s.detail, "second_err": conn["second_err"]}
+                "detail": s.detail, "second_err": conn["second_err"], "int16": b.get("int16")}
     finally:
         if armed:
             signal.setitimer(signal.ITIMER_REAL, 0)
